@@ -2,7 +2,8 @@
 C08 — executable model of the converters **as the code is written now**:
 
 * `empty`      — `TimedList.empty(n)`: the one-row default frame (`list_props._default`) replicated `n` times,
-                 `reset_index(drop=True)` → labels `0..n-1`; a column whose declared default is `[]` holds NaN (D08);
+                 `reset_index(drop=True)` → labels `0..n-1`; a column whose declared default is a list is then
+                 filled with one fresh list per row (D08 repaired);
 * `cast`       — `ConvertBase.cast`: buffer = `target.empty(len(src))`, then one column assignment per mapping
                  entry: a `str` entry copies `src.<from>.to_numpy()` **by position**; any other value is assigned
                  as it is — for the pandas Series that `BMSToOsu` passes this is pandas' **label-aligned** assignment;
@@ -54,10 +55,12 @@ def Frame.col? (f : Frame) (k : String) : Option (List Cell) := f.cols.lookup k
 /-- every column is as long as the index -/
 def Frame.WF (f : Frame) : Prop := ∀ p ∈ f.cols, p.2.length = f.index.length
 
-/-- what the one-row default frame holds for a declared default (`pd.Series([], dtype=object)` has no row: NaN) -/
+/-- what `empty` puts into each row for a declared default: the scalar itself; for a list default one fresh
+(empty) list per row — `TimedList.empty` overwrites the NaN that the one-row default frame holds there
+(`pd.Series([], dtype=object)` has no row).  A list cell is `.other "list"`. -/
 def defaultCell : Dflt → Cell
   | .scalar c => c
-  | .emptyList => .nan
+  | .emptyList => .other "list"
 
 def schemaOf (lc : ListClass) : List (String × Cell) := lc.props.map fun p => (p.1, defaultCell p.2.2)
 
